@@ -21,12 +21,17 @@
 package tchannel
 
 import (
+	"errors"
 	"hash"
 	"hash/crc32"
 	"sync"
 )
 
 var checksumPools [checksumCount]sync.Pool
+
+// errUnknownChecksumType is returned when a peer sends a checksum type byte
+// that is not one of the known types.
+var errUnknownChecksumType = errors.New("unknown checksum type")
 
 // A ChecksumType is a checksum algorithm supported by TChannel for checksumming call bodies
 type ChecksumType byte
